@@ -763,6 +763,10 @@ class WindowsRegistryValueType(_STIXBase21):
         ('data_type', EnumProperty(WINDOWS_REGISTRY_DATATYPE)),
     ])
 
+    def _check_object_constraints(self):
+        super(WindowsRegistryValueType, self)._check_object_constraints()
+        self._check_at_least_one_property()
+
 
 class WindowsRegistryKey(_Observable):
     """For more detailed information on this object's properties, see
@@ -812,6 +816,10 @@ class X509V3ExtensionsType(_STIXBase21):
         ('certificate_policies', StringProperty()),
         ('policy_mappings', StringProperty()),
     ])
+
+    def _check_object_constraints(self):
+        super(X509V3ExtensionsType, self)._check_object_constraints()
+        self._check_at_least_one_property()
 
 
 class X509Certificate(_Observable):
